@@ -16,8 +16,13 @@ def main(tier):
                        'concretisation of scenes in harness/replay_query.py; of Partition histories in harness/replay_partition.py']
     suite_query.run(rep, tier, props=('C12',))
     # per-scenario label / Series index / coefficient NaN-pattern clauses on Partition.tla histories
-    # (illegal calls, pre-made slices, several variables): findings of C12 only
-    suite_partition.run(rep, tier, props=('C12',))
+    # (illegal calls, pre-made slices, several variables): findings of C12 only.  Always the quick
+    # constants of that suite: its thorough constants export every state of a multi-million state graph
+    # (measured > 15 min and 14 GB in the parent process), far beyond this property's budget; the
+    # thorough tier of C12 deepens Query.tla instead (3 arrays, histories and chains of length 3).
+    suite_partition.run(rep, 'quick', props=('C12',))
+    if tier != 'quick':
+        rep.note('Partition.tla part run with its quick constants in every tier (see checks/c12.py)')
     return rep.finish()
 
 
